@@ -292,13 +292,13 @@ Theorem C04_translated_search_is_the_model : forall (get : nat -> option CI.entr
   GoLite.call GoLiteC04.prog (GoLiteC04_Search.ext_get get) f "searchEytzinger"%string
     [GoLite.VInt 0%Z; GoLite.VInt (Z.of_nat n); GoLite.VInt (Z.of_N x)]
   = GoLiteC04_Search.enc (CI.search_get f get n x 0).
-Proof. exact GoLiteC04_Search.searchEytzinger_is_search_get. Qed.
+Proof. exact (GoLiteC04_Search.searchEytzinger_is_search_get GoLiteC04.prog GoLiteC04.prog_searchEytzinger). Qed.
 
 (* compactindex.go:hashUint64 is C04_Hash.murmur on every 64-bit value *)
 Theorem C04_translated_hashUint64_is_murmur : forall ext fuel (x : N), (x < 18446744073709551616)%N ->
   GoLite.call GoLiteC04.prog ext fuel "hashUint64"%string [GoLite.VInt (Z.of_N x)]
   = GoLite.RRet (GoLite.VInt (Z.of_N (murmur x))).
-Proof. exact GoLiteC04_Proofs.hashUint64_is_murmur. Qed.
+Proof. exact (GoLiteC04_Proofs.hashUint64_is_murmur GoLiteC04.prog GoLiteC04.prog_hashUint64). Qed.
 
 (* compactindex.go:(Header).BucketHash, for every Sum64 oracle with 64-bit results and every bucket count
    1..2^32-1: whenever the call returns, the result is  rounds k (Sum64 key) mod NumBuckets  for the first k whose
@@ -312,7 +312,7 @@ Theorem C04_translated_bucket_hash_is_the_model :
   exists k, (r <= GoLiteC04_Proofs.rounds k (sum64 key))%N /\
             v = GoLite.VInt (Z.of_N (GoLiteC04_Proofs.rounds k (sum64 key) mod nb)) /\
             (k <= 64 -> v = GoLite.VInt (Z.of_N (reject 64 (sum64 key) r mod nb))).
-Proof. exact GoLiteC04_Proofs.BucketHash_is_model_reject. Qed.
+Proof. exact (GoLiteC04_Proofs.BucketHash_is_model_reject GoLiteC04.prog GoLiteC04.prog_hashUint64 GoLiteC04.prog_Header_BucketHash). Qed.
 
 (* compactindex.go:(BucketHeader).Hash, for every EntryHash64 oracle with 64-bit results: hash lengths 1..8 keep
    exactly the low HashLen bytes (HashLen = 3 is CI.h24) *)
@@ -323,18 +323,18 @@ Theorem C04_translated_entry_hash_mask :
     [GoLite.VStruct (("HashDomain"%string, GoLite.VInt d) :: ("NumEntries"%string, GoLite.VInt 0%Z) ::
                      ("HashLen"%string, GoLite.VInt (Z.of_N hl)) :: rest); GoLite.VInts key]
   = GoLite.RRet (GoLite.VInt (Z.of_N (eh d key mod 256 ^ hl))).
-Proof. exact GoLiteC04_Codec.BucketHeader_Hash_is_mod. Qed.
+Proof. exact (GoLiteC04_Codec.BucketHeader_Hash_is_mod GoLiteC04.prog GoLiteC04.prog_BucketHeader_Hash). Qed.
 
 (* compactindex.go:uintLe / putUintLe are Codec.le_dec / Codec.le_enc on at most 8 bytes *)
 Theorem C04_translated_uintLe_is_le_dec : forall ext fuel (bs : list N), List.length bs <= 8 ->
   GoLite.call GoLiteC04.prog ext fuel "uintLe"%string [GoLite.VInts (map Z.of_N bs)]
   = GoLite.RRet (GoLite.VInt (Z.of_N (Codec.le_dec bs))).
-Proof. exact GoLiteC04_Codec.uintLe_is_le_dec. Qed.
+Proof. exact (GoLiteC04_Codec.uintLe_is_le_dec GoLiteC04.prog GoLiteC04.prog_uintLe). Qed.
 
 Theorem C04_translated_putUintLe_is_le_enc : forall ext fuel (buf : list Z) (x : N), List.length buf <= 8 ->
   GoLite.call GoLiteC04.prog ext fuel "putUintLe"%string [GoLite.VInts buf; GoLite.VInt (Z.of_N x)]
   = GoLite.RRet (GoLite.VInts (map Z.of_N (Codec.le_enc (List.length buf) x))).
-Proof. exact GoLiteC04_Codec.putUintLe_is_le_enc. Qed.
+Proof. exact (GoLiteC04_Codec.putUintLe_is_le_enc GoLiteC04.prog GoLiteC04.prog_putUintLe). Qed.
 
 (* build.go:eytzinger(in, out, 0, 1) is Eytz.go — the layout function of the eytzinger theorems (Eytz*.v, used by
    C04 and C05) — on every input of fewer than 2^61 elements and every output array of the same length: same
@@ -343,7 +343,7 @@ Theorem C04_translated_eytzinger_is_the_model : forall ext f (inp out : list Z),
   List.length out = List.length inp -> (Z.of_nat (List.length inp) < 2305843009213693952)%Z -> List.length inp < 2 ^ f ->
   GoLite.call GoLiteC04.prog ext f "eytzinger"%string [GoLite.VInts inp; GoLite.VInts out; GoLite.VInt 0%Z; GoLite.VInt 1%Z]
   = GoLiteC04_Eytz.ey_ret (Eytz.go Z 0%Z (S f) inp out 0 1).
-Proof. exact GoLiteC04_Eytz.eytzinger_is_go. Qed.
+Proof. exact (GoLiteC04_Eytz.eytzinger_is_go GoLiteC04.prog GoLiteC04.prog_eytzinger). Qed.
 
 (* non-vacuity: the translated layout and search RUN (vm_compute inside the kernel): ten keys laid out by the
    translated eytzinger, then every key found and an absent one not found by the translated searchEytzinger *)
